@@ -42,6 +42,12 @@ Definition hash_r (s : rstate) : N :=
 Fixpoint run_reactor_from (s : rstate) (es : list crev) : list N :=
   match es with [] => [] | e :: t => let s' := rstep s (rev_of e) in hash_r s' :: run_reactor_from s' t end.
 Definition run_reactor (es : list crev) : list N := run_reactor_from rstate0 es.
+(* the wake-up queue after a schedule of sub-steps of put()/get() (harness/qsched.py):
+   [number of items; wake-up bytes in the socket pair; number handed out] ++ items (FIFO) ++ handed out (in order) *)
+Definition run_queue (es : list qev) : list N :=
+  let s := qrun es in
+  (N.of_nat (List.length (items s)) :: N.of_nat (wake s) :: N.of_nat (List.length (got s)) ::
+   map N.of_nat (items s) ++ map N.of_nat (got s))%list.
 
 (* ---- asyncio ClientSession --------------------------------------------------------------------------- *)
 From HP Require Import AioSession.
